@@ -328,13 +328,16 @@ def check_case(case, acc):
         labels = m.target_labels
         m.frame_results = []
         frs = []
-        for rep, crit in enumerate(("box_per_label", "ring")):
+        for rep, crit in enumerate(("box_per_label", "ring", "box_per_label:reversed")):
             ests = [G.mk3d(dict(s, score=round(s["score"] - 0.003 * rep, 4)), fr_id, ego) for s in case["ests"]]
             gts = [G.mk3d(s, fr_id, ego) for s in case["gts"]]
             wf = _weight_fn(case, ests, gts)
             acc.exec()
-            fr = m.add_frame_result(100 + rep, F.frame_gt(gts, ego, 100 + rep, str(rep)), ests, F.crit_config(m.evaluator_config, S.CRIT[crit]),
-                                    F.pf_config(m.evaluator_config, S.THR["loose"]))
+            if crit.endswith(":reversed"):   # same per-label values, labels listed as [pedestrian, car]
+                cc = F.crit_config(m.evaluator_config, {k_: list(reversed(v_)) for k_, v_ in S.CRIT[crit.split(":")[0]].items()}, ("pedestrian", "car"))
+            else:
+                cc = F.crit_config(m.evaluator_config, S.CRIT[crit])
+            fr = m.add_frame_result(100 + rep, F.frame_gt(gts, ego, 100 + rep, str(rep)), ests, cc, F.pf_config(m.evaluator_config, S.THR["loose"]))
             frs.append((fr, wf))
             _check_maps(case, fr.metrics_score.maps, [fr.object_results], labels, case["policy"], wf, acc,
                         lambda s, mm: bad("frame:" + s, mm + " frame#%d crit=%s" % (rep, crit)),
@@ -350,12 +353,12 @@ def check_case(case, acc):
                     return wf(r)
             raise KeyError
 
-        # weight function of a result = the one of its own frame (objects of the two frames are distinct instances)
+        # weight function of a result = the one of its own frame (objects of different frames are distinct instances)
         def wscene(r):
-            for (fr, wf), (ests_gts) in zip(frs, range(2)):
+            for fr, wf in frs:
                 if any(r is x for x in fr.object_results):
                     return wf(r)
-            return 0.0
+            raise KeyError("object result of no frame")
 
         _check_maps(case, sc.maps, [fr.object_results for fr, _ in frs], labels, case["policy"], wscene, acc,
                     lambda s, mm: bad("scene:" + s, mm),
